@@ -35,7 +35,10 @@ def run(ctx):
     def setgv(i):
         with warnings.catch_warnings():
             warnings.simplefilter("ignore")
-            gv(sps=[16, 8, 32][i % 3], R=[1e9, 10e9, 2.5e9][i % 3])
+            if i % 5 == 4:
+                gv(R=[10e9, 4e9][(i // 5) % 2], fs=[25e9, 10e9][(i // 5) % 2])        # fs/R not an integer: the filters are designed on fs itself
+            else:
+                gv(sps=[16, 8, 32][i % 3], R=[1e9, 10e9, 2.5e9][i % 3])
         return gv.fs
 
     def mid(v):
@@ -155,6 +158,12 @@ def run(ctx):
             for v in lad + ladb:
                 events.append({"kind": "gain", "mdB": int(round(-min(v, 300) * 1000))}); meta.append(("gain", order))
             out, H = LPF(np.cos(2 * np.pi * kc * fs / n * t), BW, order, retH=True)
+            # the same record regarded as sampled on its own grid (explicit fs different from the global one, cutoff scaled alike):
+            # same output, and the response returned is the same function of the bin index
+            for sc_ in (4.0, 0.5):
+                out2, H2 = LPF(np.cos(2 * np.pi * kc * fs / n * t), BW * sc_, order, fs=fs * sc_, retH=True)
+                law("explicit-fs-rescales-the-grid", out2.signal + 10, out.signal + 10, tol=10 ** 4)
+                law("explicit-fs-rescales-the-grid", np.asarray(H2) + 10, np.asarray(H) + 10, tol=10 ** 4)
             Hs = np.fft.ifftshift(H)                                   # back to FFT order: bin k <-> k*fs/n
             pairs = [[int(round(2 * 20 * math.log10(abs(Hs[k])) * 1000)), int(round(-a * 1000))] for k, a in zip(ks, lad) if a < 60]
             pairs.append([int(round(2 * 20 * math.log10(max(abs(Hs[0]), 1e-30)) * 1000)), 0])        # DC bin: unit gain
